@@ -182,8 +182,15 @@ func (s *RedundantScope) handleVarassign(mkline *MkLine, ind *Indentation) {
 			// A variable has been defined in an including file and
 			// has never been read.
 			// The current line has a shell command assignment,
-			// overwriting the previously assigned value.
-			if info.vari.IsConstant() {
+			// overwriting the previously assigned value,
+			// unless the shell command uses that value.
+			usesItself := false
+			mkline.ForEachUsed(func(expr *MkExpr, time EctxTime) {
+				if expr.varname == varname {
+					usesItself = true
+				}
+			})
+			if info.vari.IsConstant() && !usesItself {
 				s.onRedundant(prevWrites[len(prevWrites)-1], mkline)
 			}
 		}
